@@ -1046,10 +1046,20 @@ def rule_r14(ctx) -> List[R.Inst]:
         loops = [n for n in walk_no_nested(fn) if isinstance(n, (ast.For, ast.While))]
         for lp in loops:
             txt = unparse(lp)
-            if "__bases__" in txt and "hasattr(" in txt and "append(" in txt:
+            if "__bases__" in txt and "hasattr(" in txt and ("append(" in txt or ".update(" in txt or ".extend(" in txt):
                 walkers.append((fn, lp))
     if not walkers:
         return [R.undec(rid, "ancestor-walk", file, 0, "no walk over __bases__ that gathers props was found in Property.py")]
+    # every decorator that merges inherited props (it stores the merged dict with setattr(cl, prop_name, ..)) is served by one of the
+    # walks found: in its own body, or in a module-level helper it calls
+    helpers = {f.name for f, _ in walkers}
+    for dec in [f for f in ast.walk(mod.tree) if isinstance(f, ast.FunctionDef) and f.name == "gen_props"]:
+        merges = any(isinstance(x, ast.Call) and call_name(x) == "setattr" and len(x.args) == 3 and unparse(x.args[1]) == "prop_name" for x in ast.walk(dec))
+        mentions_bases = "__bases__" in unparse(dec) or any(isinstance(x, ast.Call) and isinstance(x.func, ast.Name) and x.func.id in helpers for x in ast.walk(dec))
+        if merges and not (any(f is dec or any(y is f for y in ast.walk(dec)) for f, _ in walkers) or
+                           any(isinstance(x, ast.Call) and isinstance(x.func, ast.Name) and x.func.id in helpers for x in ast.walk(dec))):
+            insts.append(R.undec(rid, f"ancestor-walk:{dec.name}@{dec.lineno}", file, dec.lineno,
+                                 "this decorator merges inherited props, but its walk over __bases__ is not of a recognised form"))
     for fn, lp in walkers:
         key = f"ancestor-walk:{fn.name}@{lp.lineno}"
         probs = []
@@ -1067,7 +1077,7 @@ def rule_r14(ctx) -> List[R.Inst]:
                 nested_rec = [x for x in ast.walk(lp) if isinstance(x, ast.Call) and isinstance(x.func, ast.Name) and x.func.id == fn.name]
                 probs.append("the descent into a base is conditional (under a test): ancestors above a base without props of its own are skipped"
                              if nested_rec else "the walk does not descend into the bases of a base")
-            takes = [i for i, x in enumerate(lp.body) if "append(" in unparse(x)]
+            takes = [i for i, x in enumerate(lp.body) if "append(" in unparse(x) or ".update(" in unparse(x)]
             if rec and takes and lp.body.index(rec[0]) < takes[0]:
                 probs.append("a base's ancestors are gathered before the base itself (post-order): the override winner changes")
         else:
